@@ -57,6 +57,12 @@ CLAIMED = {
    text="Bounded model checking: for every real (NaN-able) series up to the bound and every threshold the recurrence matrix stored by the real classes equals the thresholded metric distances (missing rows/columns cleared), cross and joint (lagged) constructions are the stated compositions with N/M equal to the stored matrix sizes, the recurrence network is R without diagonal, fixed-rate thresholding is monotone in the distance and never exceeds the requested count, local rates give equal row counts under distinct distances, and the adaptive variant gives every state at least the requested number of neighbours without raising for any neighbour order.",
    note="Bounds: kernels length<=4, dim<=2, tau<=2; classes length<=3 (4 thorough), lag -1..2. Exact reals, dtype erasure; sqrt as algebraic variable. Outside: sampling-based threshold estimation, normalize=True, rounding.",
    ref="DESIGN.md §3 C07"),
+ "C13": dict(
+   engine="P",
+   technique="proxy-value symbolic execution of the real Data / ClimateData / GeoGrid constructors and window setters (forking on every membership mask element), z3 (LRA) per path; sat models replayed on the real classes",
+   text="Bounded model checking: for symbolic increasing time stamps, coordinates, observable values and window bounds, every path of Data.__init__/set_window/set_global_window exposes exactly the samples the closed-window rule of the statement selects (full axis when the two bounds coincide; an empty selection is rejected with ValueError), with matching grid axes and sizes, and the global window restores the full view; ClimateData phase means and anomalies have zero mean per phase, add back to the (windowed) observable for every cycle length incl. non-dividing ones, and with anomalies=True anomaly() is the windowed observable.",
+   note="Bounds: T<=3, N<=2, window sequences <=2 (T=3,N=2 thorough); cycles 1..3 with T<=5 (4, T<=7 thorough). Exact reals; float32 axis storage not modelled. NetCDF loading outside.",
+   ref="DESIGN.md §3 C13"),
 }
 NA_DEFAULT = "check not built yet in this round (see DESIGN.md §6 for the planned obligation)"
 def main():
